@@ -74,7 +74,7 @@ class C11(fw.Prop):
     anchors = ["dlms_cosem/hdlc/state.py", "dlms_cosem/hdlc/connection.py", "dlms_cosem/hdlc/validators.py"]
     design_ref = "DESIGN.md §6 C11"
     exhaustive = True
-    rule = ("exhaustive: from each of the 5 x 8 x 8 reachable (phase, #sent mod 8, #received mod 8) configurations, reached by a "
+    rule = ("exhaustive: from each of the 5 x 8 x 8 reachable (thorough; quick: 5 x 16 seeded) (phase, #sent mod 8, #received mod 8) configurations, reached by a "
             "canonical path on the real object, every frame kind (SNRM, UA, DISC, RR, I, UI) in both directions with every "
             "(ssn, rsn) in 8 x 8 for information frames; then random histories of 50..400 steps (70% procedure-legal steps) so "
             "that both counters wrap several times; each step compared with Spec.Nrm (accept/refuse, phase, next numbers) "
@@ -137,8 +137,11 @@ class C11(fw.Prop):
     def cases(self, rng, tier, deep):
         phases = ["NOT_CONNECTED", "AWAITING_CONNECTION", "IDLE", "AWAITING_RESPONSE", "AWAITING_DISCONNECT"]
         pairs = list(itertools.product(range(8), range(8)))
+        quick_pairs = set(rng.sample(pairs, 12)) | {(0, 0), (7, 7), (7, 3), (0, 7)}
         for ph in phases:
             for ns, nr in pairs:
+                if not deep and (ns, nr) not in quick_pairs:
+                    continue
                 base = self.path_to(ph, ns, nr)
                 probes = []
                 for d in "sr":
@@ -153,7 +156,7 @@ class C11(fw.Prop):
                 # secretly changed something is exposed
                 for p in probes:
                     yield self.make_case({"ops": base + [p, ("s", "i", ns, nr), ("s", "snrm", 0, 0)], "tag": "exhaustive-probe"})
-        n = 3000 if deep else 150
+        n = 3000 if deep else 100
         for _ in range(n):
             ln = rng.randint(50, 400)
             ops = []
